@@ -126,7 +126,10 @@ class SaveSnapshots:
                 arm_torn_write(me.orig, data, file, me.torn)
             r = me.orig(data, file)
             me.count += 1
-            shutil.copyfile(file, os.path.join(me.dir, str(idx)))
+            # snapshot atomically: a SIGKILL may land inside this copy
+            dst = os.path.join(me.dir, str(idx))
+            shutil.copyfile(file, dst + '.part')
+            os.replace(dst + '.part', dst)
             return r
         bs.save_json = save_json
 
